@@ -236,6 +236,15 @@ def numpy_level(ctx, rng, pmod, mr, utils):
 def accessor_level(ctx, rng, xr, pmod, mr, utils):
     rec = ctx.rec
     f, th, fm, dmeta = grid(rng, small=True)
+    sector = False
+    if rng.random() < 0.3:
+        # direction grids the smoothing does not wrap: a uniformly spaced sector, or a full circle whose spacing is not
+        # exactly representable (7, 13, 28 bins) - the partitions must still be a conserving split of the raw spectrum
+        if rng.random() < 0.6:
+            th, _, dmeta = gen.dir_grid(rng, nd=int(rng.choice([4, 7, 10, 12])), full=False)
+            sector = True
+        else:
+            th, _, dmeta = gen.dir_grid(rng, nd=int(rng.choice([7, 13, 28])), full=True)
     names, sizes = gen.lead_dims(rng, nlead=int(rng.choice([0, 1, 2])), maxsize=3, allow=("time", "site", "lat", "lon"))
     npos = int(np.prod(sizes)) if sizes else 1
     A = np.array([make_spec(rng, f, th, str(rng.choice(CLASSES))) for _ in range(npos)]).reshape(tuple(sizes) + (len(f), len(th)))
@@ -251,8 +260,10 @@ def accessor_level(ctx, rng, xr, pmod, mr, utils):
     wdir = xr.DataArray(rng.uniform(0, 360, sizes), dims=names, coords=co)
     dpt = xr.DataArray(10 ** rng.uniform(0.3, 3.5, sizes), dims=names, coords=co)
     agefac, wscut = float(rng.uniform(0.8, 2.2)), float(rng.choice([0.1, 0.3333, 0.6]))
-    smooth = bool(rng.random() < 0.3) and len(f) >= 3 and len(th) >= 3
-    key = "acc|%s|%s|lead=%s|nf=%d|nd=%d|req=%d|smooth=%s" % (kind, dt, "+".join(names) or "none", len(f), len(th), req, smooth)
+    smooth = bool(rng.random() < (0.6 if dmeta.get("nd") in (7, 10, 13, 28) or sector else 0.3)) and len(f) >= 3 and len(th) >= 3
+    key = "acc|%s|%s|lead=%s|nf=%d|nd=%d|req=%d|smooth=%s%s" % (kind, dt, "+".join(names) or "none", len(f), len(th), req, smooth, "|sector" if sector else "")
+    if smooth:
+        rec.note("acc_smooth_on_%s_grid" % ("sector" if sector else "circle"))
     skw = dict(smooth=True, freq_window=3, dir_window=3) if smooth else {}
     mr.take()
     try:
@@ -280,7 +291,9 @@ def accessor_level(ctx, rng, xr, pmod, mr, utils):
     # pair native calls with positions by content (vectorize may call once more to probe otypes)
     for p in range(npos):
         s32 = np.ascontiguousarray(Bnd[p].astype(np.float32))
-        match = [c for c in calls if c[1] == ihmax and c[0].shape == s32.shape and np.array_equal(c[0], s32)]
+        match = [c for c in calls if c[1] == ihmax and c[0].shape == s32.shape and np.array_equal(c[0], s32, equal_nan=True)]
+        if match and not np.isfinite(match[0][0]).all() and np.isfinite(Ain[p]).all():
+            rec.note("non_finite_values_handed_to_the_watershed")      # observed, not judged: the partitions are
         if not match:
             rec.skip("acc_" + kind, "no recorded native call for this position")
             continue
